@@ -248,8 +248,10 @@ func (m *Model) Draw(win vaxis.Window) {
 
 	chars := m.content
 	cursor := col
-	// Make sure we've scrolled enough to have the cursor in the view
-	for widthToCursor(chars, m.cursor, m.offset)+col+scrolloff >= winW {
+	// Make sure we've scrolled enough to have the cursor in the view. We
+	// never scroll past the cursor: in a window narrower than the prompt
+	// plus scrolloff the width test alone is true for every offset
+	for m.offset < m.cursor && widthToCursor(chars, m.cursor, m.offset)+col+scrolloff >= winW {
 		m.offset += 1
 	}
 	// Or we need to scroll toward beginning of line
